@@ -1107,9 +1107,20 @@ func replay(path string) int {
 	for i := 0; i < 2; i++ {
 		var cur *runState
 		e := &explorer.Explorer{AutoAdvance: sc.Timed || sc.PubSub, HorizonNs: int64(5 * time.Second)}
-		in, out, _ := e.Run(func() *explorer.Instance { in, rs := mkInstance(sc); cur = rs; return in }, v.Replay.Schedule)
+		in, out, _ := e.Run(func() *explorer.Instance {
+			if sc.ViaHandle {
+				in, rs := mkHandleInstance(sc)
+				cur = rs
+				return in
+			}
+			in, rs := mkInstance(sc)
+			cur = rs
+			return in
+		}, v.Replay.Schedule)
 		var vs []cviol
-		if sc.PubSub {
+		if sc.ViaHandle {
+			vs = checkHandle(sc, cur, out)
+		} else if sc.PubSub {
 			vs = checkPubSub(sc, cur, out)
 		} else {
 			vs = checkKV(sc, cur, out)
